@@ -38,7 +38,8 @@ pub fn get_line_number(char_number: usize, file_contents: &str) -> i32 {
         }
     }
 
-    return 0;
+    //the character range starts on the last line of the file (no line break follows it)
+    return i;
 }
 
 pub fn storage_slots_used(variables: Vec<u16>) -> u32 {
